@@ -48,7 +48,7 @@ IdleW == [kind |-> "-", arg |-> NoHV, act |-> FALSE, fors |-> 0, firstOk |-> FAL
 \* second was handed over, the other after: first version of this check, false alarm).  At the top of the worker's loop only the
 \* newest can still be in the single-slot channel.
 Fresh == [maxSync |-> -1, syncSlot |-> -1, syncHist |-> {}, elecHist |-> <<>>, lastSync |-> -1,
-          cancelled |-> FALSE, m |-> IdleM, w |-> IdleW, lastFor |-> [p |-> NoHV, res |-> "-"], wantH |-> 0]
+          cancelled |-> FALSE, m |-> IdleM, w |-> IdleW, lastFor |-> [p |-> NoHV, res |-> "-"], oks |-> {}, wantH |-> 0]
 
 Chk(cond, tag) == cond \/ PrintT(<<"VERIF_BAD", tag, l>>)
 DropFirst(q, x) == IF x \notin ToSet(q) THEN q
@@ -103,7 +103,7 @@ CtlStep(e) ==
     [] e.ev = "worker.idle" -> [c EXCEPT !.w = IdleW, !.syncHist = {c.syncSlot} \ {-1},
                                        !.elecHist = IF c.elecHist = <<>> THEN <<>> ELSE <<Last(c.elecHist)>>]
     [] e.ev = "ctx.for" /\ e.g = "worker" ->
-         [c EXCEPT !.lastFor = [p |-> P(e), res |-> e.res], !.w.fors = @ + 1, !.w.firstOk = IF c.w.fors = 0 THEN e.res = "ok" ELSE @,
+         [c EXCEPT !.lastFor = [p |-> P(e), res |-> e.res], !.oks = IF e.res = "ok" THEN @ \cup {P(e)} ELSE @, !.w.fors = @ + 1, !.w.firstOk = IF c.w.fors = 0 THEN e.res = "ok" ELSE @,
                    !.wantH = IF e.res = "ok" /\ e.v = 0 /\ e.h > @ THEN e.h ELSE @]
     [] e.ev = "cb.round" -> [c EXCEPT !.w.rounds = Append(@, e.h), !.w.commitOk = FALSE]
     [] e.ev = "cb.commit" -> [c EXCEPT !.w.commitOk = TRUE]
@@ -161,9 +161,13 @@ Judge(e) ==
   \* an election for the current position moves to the next view of the same height (when the node takes part in the term)
   /\ Chk((e.ev = "timer.armed" /\ c.w.kind = "election") => P(e) = RL!ElectionTarget(c.w.arg), "c15_conf_election_moved_to_other_position")
   \* ---- consumer calls use the context requested last, and it was handed out
-  /\ Chk(e.ev = "spi.enter" => (c.lastFor.res = "ok" /\ Matches(c.lastFor.p, SpiPos(e))), "c15_conf_consumer_call_without_its_context")
+  \* (c.oks: the positions for which the registry has handed the worker a context in this run.  First version: "the context requested
+  \* LAST, and that request succeeded" - but a round start requests (h, 0), then the term requests (h, umbrella) for its committee call,
+  \* and a sync handled by the main loop between the two makes the second request fail; the round callback is then made, rightly, with
+  \* the (h, 0) context it holds - already cancelled.  Thorough tier, seed 1, run 324: false alarm.)
+  /\ Chk(e.ev = "spi.enter" => \E p \in c.oks : Matches(p, SpiPos(e)), "c15_conf_consumer_call_without_its_context")
   \* a context the specification holds live has not been cancelled (cancellations are logged before they are performed)
-  /\ Chk((e.ev \in {"spi.enter", "spi.leave"} /\ e.dead) => ~LiveInSpec(c.lastFor.p), "c15_conf_live_context_observed_cancelled")
+  /\ Chk((e.ev \in {"spi.enter", "spi.leave"} /\ e.dead) => \E p \in c.oks : Matches(p, SpiPos(e)) /\ ~LiveInSpec(p), "c15_conf_live_context_observed_cancelled")
 
 Next == /\ l <= Len(Trace) /\ l' = l + 1
         /\ LET e == Trace[l] IN reg' = RegStep(e) /\ c' = CtlStep(e) /\ Judge(e)   \* assignments first
